@@ -235,6 +235,313 @@ func (g *gen) txnChain() {
 	}
 }
 
+// ---------------------------------------------------------------- sessions, locks, guards, bootstrap
+
+var sessIDs = []string{"5e551001-0000-4000-8000-000000000001", "5e551002-0000-4000-8000-000000000002"}
+
+const sessUnknown = "5e55dead-0000-4000-8000-00000000dead"
+
+// ensureSession makes sure session id exists in both worlds (on node n, created if need be).
+func (g *gen) ensureSession(id, n, behavior string) {
+	// each node under its own node ID (a shared ID would turn the second registration into a rename)
+	if !readNode(n)(g.ws.store()).present || !readNode(n)(g.wf.store()).present {
+		g.exec(txnCmd(tNodeSet(n, addrs[0], map[string]string{"n1": nodeIDs[1], "N1": nodeIDs[1], "n2": nodeIDs[2]}[n])))
+	}
+	if !sessionExists(g.ws.store(), id) || !sessionExists(g.wf.store(), id) {
+		g.exec(sessCreateCmd(id, n, behavior))
+	}
+}
+
+// lockOp issues one lock / unlock, directly or as a single-operation transaction, monitored.
+func (g *gen) lockOp(unlock, viaTxn bool, k, sess string) {
+	v, fl := hx.Pick(g.r, kvVals), uint64(g.r.Intn(2))
+	var c cmd
+	typ := map[bool]string{false: "kvLock", true: "kvUnlock"}[unlock]
+	if viaTxn {
+		typ += "Txn"
+		if unlock {
+			c = single(tKVUnlock(k, v, fl, sess), lockCond(typ, true, k, v, fl, sess))
+		} else {
+			c = single(tKVLock(k, v, fl, sess), lockCond(typ, false, k, v, fl, sess))
+		}
+	} else {
+		c = kvLockCmd(unlock, k, v, fl, sess)
+		c.cond = lockCond(typ, unlock, k, v, fl, sess)
+	}
+	g.exec(c)
+	g.remember("kv/"+k, readKV(k))
+}
+
+// keyPre brings key "a" into one of the lock-relevant pre-states (sessions s1 on n1, s2 on n2).
+func (g *gen) keyPre(pre string) {
+	s1, s2 := sessIDs[0], sessIDs[1]
+	switch pre {
+	case "absent":
+	case "plain":
+		g.exec(kvSetCmd("a", "v1", 0))
+	case "held-by-s1":
+		g.ensureSession(s1, "n1", "")
+		g.exec(kvLockCmd(false, "a", "v1", 0, s1))
+	case "held-by-s2":
+		g.ensureSession(s2, "n2", hx.Pick(g.r, []string{"release", "delete"}))
+		g.exec(kvLockCmd(false, "a", "v1", 0, s2))
+	case "released":
+		g.ensureSession(s1, "n1", "")
+		g.exec(kvLockCmd(false, "a", "v1", 0, s1))
+		g.exec(kvLockCmd(true, "a", "v2", 0, s1))
+	case "holder-destroyed":
+		g.ensureSession(s2, "n2", "release")
+		g.exec(kvLockCmd(false, "a", "v1", 0, s2))
+		g.exec(sessDestroyCmd(s2))
+	case "holder-node-deleted":
+		g.ensureSession(s2, "n2", hx.Pick(g.r, []string{"release", "delete"}))
+		g.exec(kvLockCmd(false, "a", "v1", 0, s2))
+		g.exec(txnCmd(tNodeDel("n2", "")))
+	}
+	g.remember("kv/a", readKV("a"))
+	run.Tag("prestate:key-" + pre)
+}
+
+var keyPres = []string{"absent", "plain", "held-by-s1", "held-by-s2", "released", "holder-destroyed", "holder-node-deleted"}
+
+// lockMatrix: lock / unlock (direct and txn verb) × key pre-state × requester session
+// (valid, valid-other, unknown, empty, destroyed).
+func lockMatrix(fork func() *hx.RNG) {
+	for _, pre := range keyPres {
+		for _, who := range []string{"s1", "s1-absent", "unknown", "empty", "s1-destroyed"} {
+			for _, unlock := range []bool{false, true} {
+				for _, viaTxn := range []bool{false, true, false, true} {
+					g := newGen(fork())
+					g.keyPre(pre)
+					sess := sessIDs[0]
+					switch who {
+					case "s1":
+						g.ensureSession(sess, "n1", "")
+					case "s1-absent":
+						// never created in this case unless the pre-state did
+					case "unknown":
+						sess = sessUnknown
+					case "empty":
+						sess = ""
+					case "s1-destroyed":
+						g.ensureSession(sess, "n1", hx.Pick(g.r, []string{"release", "delete"}))
+						g.exec(sessDestroyCmd(sess))
+					}
+					run.Tag("lock-matrix:requester=" + who)
+					g.lockOp(unlock, viaTxn, "a", sess)
+					// a conditional KV write on the (possibly locked) key afterwards: cas must keep the holder
+					d := kvDrivers("a")[g.r.Intn(4)]
+					g.casOn(d, hx.Pick(g.r, []string{"current", "current", "stale", "zero"}), false)
+					g.finish("systematic-lock")
+				}
+			}
+		}
+	}
+}
+
+// guardTxn: a transaction whose first operations are pure guards (check-index / check-session /
+// check-not-exists) and whose last is a write on ANOTHER key: the write happens iff every guard holds.
+func (g *gen) guardTxn() {
+	cur := readKV("a")(g.ws.store())
+	var ops []top
+	for n := 1 + g.r.Intn(2); n > 0; n-- {
+		switch g.r.Intn(3) {
+		case 0:
+			ops = append(ops, tKVCheckIndex("a", g.pickCidx(hx.Pick(g.r, []string{"current", "current", "stale", "zero", "future"}), cur, "kv/a")))
+		case 1:
+			se := hx.Pick(g.r, []string{"", sessIDs[0], sessIDs[1], sessUnknown})
+			if cur.present && g.r.Bool() {
+				se = kvSession(cur) // the actual holder ("" when the key is free)
+			}
+			ops = append(ops, tKVCheckSession("a", se))
+		default:
+			k := hx.Pick(g.r, []string{"a", "b"})
+			if g.r.Bool() && !readKV("b")(g.ws.store()).present {
+				k = "b"
+			}
+			ops = append(ops, tKVCheckNotExists(k))
+		}
+	}
+	// the write goes to another key — or to the guarded key itself, so that a later guard is
+	// judged against what the write left behind
+	wk := hx.Pick(g.r, []string{"b", "b", "a"})
+	wcur := readKV(wk)(g.ws.store())
+	idx := g.reserveIdx()
+	switch g.r.Intn(6) {
+	case 0:
+		ops = append(ops, tKVSet(wk, hx.Pick(g.r, kvVals), 0))
+	case 1:
+		ops = append(ops, tKVCas(wk, hx.Pick(g.r, kvVals), 0, g.pickCidx(hx.Pick(g.r, []string{"current", "current", "zero", "stale"}), wcur, "kv/"+wk)))
+	case 2, 3:
+		se := hx.Pick(g.r, sessIDs)
+		if wcur.present && kvSession(wcur) != "" && g.r.Bool() { // the other session asks for a held key
+			se = map[string]string{sessIDs[0]: sessIDs[1], sessIDs[1]: sessIDs[0]}[kvSession(wcur)]
+		}
+		ops = append(ops, tKVLock(wk, hx.Pick(g.r, kvVals), 0, se))
+	case 4:
+		se := hx.Pick(g.r, sessIDs)
+		if wcur.present && kvSession(wcur) != "" && g.r.Chance(70) {
+			se = kvSession(wcur)
+		}
+		ops = append(ops, tKVUnlock(wk, hx.Pick(g.r, kvVals), 0, se))
+	default:
+		ops = append(ops, tSessDel(hx.Pick(g.r, sessIDs)))
+	}
+	if g.r.Chance(40) { // guard after the write, judged against what the write left
+		switch g.r.Intn(3) {
+		case 0:
+			ops = append(ops, tKVCheckIndex(wk, hx.Pick(g.r, []uint64{idx, idx, wcur.modify})))
+		case 1:
+			ops = append(ops, tKVCheckSession(wk, hx.Pick(g.r, []string{"", sessIDs[0], sessIDs[1]})))
+		default:
+			ops = append(ops, tKVCheckNotExists(wk))
+		}
+	}
+	run.Tag("txn-guard")
+	res, _ := g.exec(txnCmd(ops...))
+	if strings.HasPrefix(res, "txn-ok") {
+		g.nontriv = true
+		run.Tag("txn-guard:committed")
+	}
+	g.remember("kv/a", readKV("a"))
+	g.remember("kv/b", readKV("b"))
+}
+
+func guardMatrix(fork func() *hx.RNG) {
+	for _, pre := range keyPres {
+		for k := 0; k < 16; k++ {
+			g := newGen(fork())
+			g.keyPre(pre)
+			if g.r.Bool() {
+				g.exec(kvSetCmd("b", "v1", 0))
+				g.remember("kv/b", readKV("b"))
+			}
+			if g.r.Chance(75) {
+				g.ensureSession(sessIDs[0], "n1", hx.Pick(g.r, []string{"", "release", "delete"}))
+			}
+			if g.r.Chance(60) {
+				g.ensureSession(sessIDs[1], "n2", hx.Pick(g.r, []string{"", "release", "delete"}))
+				if g.r.Chance(60) { // key b held, so that lock / unlock / check-session on it have something to judge
+					g.exec(kvLockCmd(false, "b", "v1", 0, sessIDs[1]))
+					g.remember("kv/b", readKV("b"))
+				}
+			}
+			g.guardTxn()
+			g.finish("systematic-txn-guard")
+		}
+	}
+}
+
+// sessionCascade: a session holding several keys goes away (destroy, txn session-delete, node
+// delete, node rename) — every held key is released / deleted at the raft index, others untouched.
+func sessionCascade(fork func() *hx.RNG) {
+	for _, behavior := range []string{"", "release", "delete"} {
+		for _, how := range []string{"destroy", "txn-delete", "node-delete", "node-delete-cas", "node-rename"} {
+			for rep := 0; rep < 2; rep++ {
+				g := newGen(fork())
+				s1, s2 := sessIDs[0], sessIDs[1]
+				g.exec(txnCmd(tNodeSet("n1", addrs[0], nodeIDs[1])))
+				g.exec(txnCmd(tNodeSet("n2", addrs[1], nodeIDs[2])))
+				g.exec(sessCreateCmd(s1, hx.Pick(g.r, []string{"n1", "N1"}), behavior))
+				g.ensureSession(s2, "n2", "release")
+				g.exec(kvLockCmd(false, "a", "v1", 0, s1))
+				g.exec(kvLockCmd(false, "a/b", "v2", 1, s1))
+				g.exec(kvLockCmd(false, "b", "v1", 0, s2))
+				if g.r.Bool() {
+					g.exec(kvLockCmd(true, "a/b", "v2", 1, s1))
+				}
+				switch how {
+				case "destroy":
+					g.exec(sessDestroyCmd(s1))
+				case "txn-delete":
+					g.exec(txnCmd(tSessDel(s1), tKVCheckSession("b", s2)))
+				case "node-delete":
+					g.exec(txnCmd(tNodeDel("n1", "")))
+				case "node-delete-cas":
+					g.exec(single(tNodeDelCas("n1", "", readNode("n1")(g.ws.store()).modify), nil))
+				default:
+					g.exec(txnCmd(tNodeSet("n3", addrs[1], nodeIDs[1]))) // same ID under a new name: n1 goes, with its sessions
+				}
+				run.Tag("session-cascade:" + how + ",behavior=" + behavior)
+				for _, w := range []*world{g.ws, g.wf} {
+					st := w.store()
+					if sessionExists(st, s1) {
+						run.Violate("session:not-invalidated:"+how, "world "+w.tag+": session survives "+how, append([]string(nil), g.ops...))
+					}
+					for _, k := range []string{"a", "a/b"} {
+						if e := readKV(k)(st); e.present && kvSession(e) == s1 {
+							run.Violate("session:lock-survives-session:"+how, "world "+w.tag+": key "+k+" still held by a gone session", append([]string(nil), g.ops...))
+						}
+					}
+					if e := readKV("b")(st); !e.present || kvSession(e) != s2 {
+						run.Violate("session:foreign-lock-touched:"+how, "world "+w.tag+": key b lost its holder", append([]string(nil), g.ops...))
+					}
+				}
+				// the freed key can be taken by the other session; the index of its earlier life is stale
+				g.lockOp(false, g.r.Bool(), "a", s2)
+				g.casOn(kvDrivers("a")[0], hx.Pick(g.r, []string{"current", "stale", "zero"}), false)
+				g.finish("systematic-session-cascade")
+			}
+		}
+	}
+}
+
+// bootstrap: ACLBootstrap × history of earlier bootstraps × supplied reset index × token shape.
+func (g *gen) bootstrap(class, shape string) {
+	_, cur, err := g.ws.store().CanBootstrapACLToken()
+	must(err)
+	reset := g.pickCidx(class, ent{present: cur != 0, modify: cur}, "boot")
+	acc := hx.Pick(g.r, tokAcc)
+	t := tokReq{acc, secretOf(acc), hx.Pick(g.r, descs), 0}
+	switch shape {
+	case "changed-secret":
+		t.sec = "bad-" + acc
+	case "empty-secret":
+		t.sec = ""
+	case "empty-accessor":
+		t.acc = ""
+	}
+	run.Tag("boot-token:" + shape)
+	c := tokBootCmd(reset, t)
+	c.cond = bootCond(reset, t)
+	g.exec(c)
+	if _, now, _ := g.ws.store().CanBootstrapACLToken(); now != 0 {
+		h := g.hist["boot"]
+		if len(h) == 0 || h[len(h)-1] != now {
+			g.hist["boot"] = append(h, now)
+		}
+	}
+	for _, a := range tokAcc {
+		g.remember("tok/"+a, readTok(a))
+	}
+}
+
+func bootMatrix(fork func() *hx.RNG) {
+	for _, pre := range []string{"never", "once", "twice"} {
+		for _, class := range cidxClasses {
+			for _, shape := range []string{"fresh", "fresh", "changed-secret", "empty-secret", "empty-accessor"} {
+				for _, withTok := range []bool{false, true} {
+					g := newGen(fork())
+					if withTok {
+						for _, a := range tokAcc[:2] {
+							g.exec(tokSetCmd(false, []tokReq{{a, secretOf(a), "d1", 0}}))
+						}
+					}
+					if pre != "never" {
+						g.bootstrap("zero", "fresh")
+					}
+					if pre == "twice" {
+						g.bootstrap("current", "fresh")
+					}
+					run.Tag("prestate:boot-" + pre)
+					g.bootstrap(class, shape)
+					g.finish("systematic-bootstrap")
+				}
+			}
+		}
+	}
+}
+
 // ---------------------------------------------------------------- case families
 
 // systematic: every command type × pre-state × supplied-index class × payload relation.
@@ -277,6 +584,10 @@ func systematic(rounds int) {
 			}
 		}
 		nodeIDMatrix(fork)
+		lockMatrix(fork)
+		guardMatrix(fork)
+		sessionCascade(fork)
+		bootMatrix(fork)
 		// transactions whose operations depend on each other (per-op monitor)
 		for _, pre := range []string{"absent", "present", "rewritten"} {
 			for k := 0; k < 60; k++ {
@@ -488,12 +799,34 @@ func history(r *hx.RNG, length int) {
 		case x < 82:
 			g.featureGate(hx.Pick(g.r, []string{"current", "current", "zero", "stale", "future"}),
 				hx.Pick(g.r, []string{"current", "current", "zero", "stale", "pred"}), g.r.Chance(60), g.r.Chance(92))
-		case x < 90:
+		case x < 86:
 			g.tokenBatch()
-		case x < 95:
+		case x < 88:
+			g.bootstrap(hx.Pick(g.r, cidxClasses), hx.Pick(g.r, []string{"fresh", "fresh", "fresh", "changed-secret", "empty-secret"}))
+		case x < 91:
 			g.multiTxn()
-		default:
+		case x < 94:
 			g.txnChain()
+		case x < 96:
+			g.guardTxn()
+		default:
+			// sessions and locks: create / destroy / lock / unlock on the shared KV keys
+			id := hx.Pick(g.r, sessIDs)
+			switch g.r.Intn(6) {
+			case 0:
+				g.exec(sessCreateCmd(id, hx.Pick(g.r, []string{"n1", "n2", "N1"}), hx.Pick(g.r, []string{"", "release", "delete", "bogus"})))
+			case 1:
+				if g.r.Bool() {
+					g.exec(sessDestroyCmd(id))
+				} else {
+					g.exec(txnCmd(tSessDel(id)))
+				}
+			default:
+				if g.r.Chance(60) {
+					g.ensureSession(id, hx.Pick(g.r, []string{"n1", "n2"}), hx.Pick(g.r, []string{"", "delete"}))
+				}
+				g.lockOp(g.r.Chance(35), g.r.Bool(), hx.Pick(g.r, []string{"a", "a/b", "b"}), hx.Pick(g.r, []string{id, id, sessIDs[0], sessUnknown, ""}))
+			}
 		}
 	}
 	g.finish("history")
